@@ -20,6 +20,10 @@ import time
 
 VERIF = os.path.dirname(os.path.dirname(os.path.abspath(__file__)))
 REPO = os.environ.get("VERIF_REPO", "/repo")
+# evidence and replay files go to /verif only for runs against /repo itself; experiments against another
+# tree (VERIF_REPO: seeded changes, refactorings) write them to VERIF_OUT (default: a directory under /tmp)
+OUT = os.environ.get("VERIF_OUT") or (VERIF if os.path.realpath(REPO) == "/repo" else
+                                      os.path.join(tempfile.gettempdir(), "gtverif-out-" + os.path.basename(REPO.rstrip("/"))))
 COQ = os.path.join(VERIF, "coq")
 THEORIES = os.path.join(COQ, "theories")
 GT_MODULES = ["gconfig", "gencommon", "genum", "gerror", "gogenproto", "gsort", "gsync",
@@ -380,7 +384,7 @@ class Ctx:
         if self.nreplay > 5:
             self.violations.append("(not written)")
             return "violation"
-        d = os.path.join(VERIF, "replays")
+        d = os.path.join(OUT, "replays")
         os.makedirs(d, exist_ok=True)
         path = os.path.join(d, "%s-%s-seed%d-%d.json" % (self.pid, self.tier, self.seed, self.nreplay))
         replay = dict(replay)
@@ -405,7 +409,7 @@ class Ctx:
         ev["coverage"].setdefault("checker_cmd", self.checker_cmd or "coqc")
         ev["coverage"].setdefault("trusted_base", self.trusted)
         ev["coverage"]["known_findings_hit"] = self.known_hits
-        d = os.path.join(VERIF, "evidence")
+        d = os.path.join(OUT, "evidence")
         os.makedirs(d, exist_ok=True)
         with open(os.path.join(d, self.pid + ".json"), "w") as f:
             json.dump(ev, f, indent=1, sort_keys=True, default=str)
